@@ -42,12 +42,31 @@ func freeRunV1(t *testing.T, rnd *rand.Rand, run int) (map[string]any, []obs) {
 	if err != nil {
 		t.Fatalf("v1.New: %v", err)
 	}
-	for p := range inputs { // the options map belongs to the caller again once New has returned: reuse it
-		delete(inputs, p)
+	if rnd.Intn(2) == 0 {
+		for p := range inputs { // the options map belongs to the caller again once New has returned: reuse it
+			delete(inputs, p)
+		}
 	}
 	ending := []string{"graceful", "graceful", "stop", "cancel"}[rnd.Intn(4)]
 	quit := make(chan struct{}) // closed when the discipline has terminated: unblocks producers and workers
 	var wg sync.WaitGroup
+	wg.Add(1)
+	go func() { // the owner of the options map keeps looking at it, never synchronising with the discipline (C20: user-visible data)
+		defer wg.Done()
+		for {
+			select {
+			case <-quit:
+				return
+			default:
+			}
+			n := len(inputs)
+			for range inputs {
+				n--
+			}
+			_ = n
+			time.Sleep(20 * time.Microsecond)
+		}
+	}()
 	replaced := -1
 	if extra == 1 {
 		replaced = (n) % n // channel index n is registered under the priority of channel 0 => channel 0 becomes dead
@@ -239,10 +258,8 @@ func freeRunSimple(t *testing.T, rnd *rand.Rand, run int, ver int) (map[string]a
 		}
 		errCh = s.Err()
 	}
-	for p := range inputs { // the caller's map is the caller's again
-		delete(inputs, p)
-	}
 	quit := make(chan struct{})
+	ownMap(inputs, quit) // the caller's map is the caller's again
 	var wg sync.WaitGroup
 	for _, p := range cfg.Prios {
 		wg.Add(1)
